@@ -304,6 +304,10 @@ func (sp *speller) scalar(n *yaml.Node, key bool) (string, error) {
 			return "", errNA("explicitly tagged scalar")
 		}
 		if sp.r.JSON != "none" {
+			if key && tag == "!!int" && canonicalDecimal.MatchString(n.Value) {
+				// a member name: the plain key `200` names the member "200" (spec/Spelling.tla KeyTag)
+				return jsonString(n.Value), nil
+			}
 			if key {
 				return "", errNA("non-string key has no JSON spelling")
 			}
@@ -531,6 +535,102 @@ func spell(doc *yaml.Node, r recipe) ([]byte, error) {
 	return out, nil
 }
 
+// expandMerges returns a copy of the tree in which every merge key (`<<: *a`, `<<: [*a, *b]`) is
+// replaced by the members it stands for (YAML 1.1 merge: members written in the mapping itself
+// win, earlier merged mappings win over later ones); the members merged in come first.
+// ok is false when a merge value is not a mapping / a sequence of mappings.
+func expandMerges(n *yaml.Node) (out *yaml.Node, ok bool) {
+	if n.Kind == yaml.AliasNode {
+		// the target is expanded where it is defined; an alias keeps pointing to the copy
+		return n, true
+	}
+	cp := *n
+	cp.Content = nil
+	ok = true
+	if n.Kind != yaml.MappingNode {
+		for _, c := range n.Content {
+			e, k := expandMerges(c)
+			ok = ok && k
+			cp.Content = append(cp.Content, e)
+		}
+		return &cp, ok
+	}
+	own := map[string]bool{}
+	for i := 0; i+1 < len(n.Content); i += 2 {
+		if k := resolve(n.Content[i]); k.Kind == yaml.ScalarNode && k.ShortTag() != "!!merge" {
+			own[k.ShortTag()+" "+k.Value] = true
+		}
+	}
+	var merged, rest []*yaml.Node
+	take := func(m *yaml.Node) bool {
+		m = resolve(m)
+		if m.Kind != yaml.MappingNode {
+			return false
+		}
+		em, k := expandMerges(m)
+		if !k {
+			return false
+		}
+		for i := 0; i+1 < len(em.Content); i += 2 {
+			key := resolve(em.Content[i])
+			id := key.ShortTag() + " " + key.Value
+			if key.Kind != yaml.ScalarNode || own[id] {
+				continue
+			}
+			own[id] = true
+			merged = append(merged, em.Content[i], em.Content[i+1])
+		}
+		return true
+	}
+	for i := 0; i+1 < len(n.Content); i += 2 {
+		k, v := n.Content[i], n.Content[i+1]
+		if resolve(k).ShortTag() == "!!merge" {
+			switch rv := resolve(v); rv.Kind {
+			case yaml.MappingNode:
+				ok = take(rv) && ok
+			case yaml.SequenceNode:
+				for _, m := range rv.Content {
+					ok = take(m) && ok
+				}
+			default:
+				ok = false
+			}
+			continue
+		}
+		ek, k1 := expandMerges(k)
+		ev, k2 := expandMerges(v)
+		ok = ok && k1 && k2
+		rest = append(rest, ek, ev)
+	}
+	cp.Content = append(merged, rest...)
+	return &cp, ok
+}
+
+var canonicalDecimal = regexp.MustCompile(`^(0|[1-9][0-9]*)$`)
+
+// sameKey: member names are strings; a plain key that reads as a canonical decimal integer
+// names the member spelled by its digits (spec/Spelling.tla KeyTag).
+func sameKey(a, b *yaml.Node) bool {
+	a, b = resolve(a), resolve(b)
+	if a.Kind == yaml.ScalarNode && b.Kind == yaml.ScalarNode {
+		name := func(n *yaml.Node) (string, bool) {
+			switch {
+			case n.ShortTag() == "!!str":
+				return n.Value, true
+			case n.ShortTag() == "!!int" && n.Style == 0 && canonicalDecimal.MatchString(n.Value):
+				return n.Value, true
+			}
+			return "", false
+		}
+		na, oka := name(a)
+		nb, okb := name(b)
+		if oka && okb {
+			return na == nb
+		}
+	}
+	return sameData(a, b)
+}
+
 // sameData compares two node trees as data (kind, resolved tag, value; aliases expanded).
 func sameData(a, b *yaml.Node) bool {
 	a, b = resolve(a), resolve(b)
@@ -565,6 +665,12 @@ func sameData(a, b *yaml.Node) bool {
 			return false
 		}
 		for i := range a.Content {
+			if a.Kind == yaml.MappingNode && i%2 == 0 {
+				if !sameKey(a.Content[i], b.Content[i]) {
+					return false
+				}
+				continue
+			}
 			if !sameData(a.Content[i], b.Content[i]) {
 				return false
 			}
